@@ -205,14 +205,14 @@ def model_key(r):
     return (week_text(r['week']), float(r['x']['val']))
 
 
-_name_re = re.compile(r'^([^/]+)/([^/]+)\.json$')
+_name_re = re.compile(r'([^/]+)/([^/]+)\.json')
 
 
 def listing_keys(paths, prefix):
     """names below the bucket -> ({(week text, float X)}, [unparseable names])"""
     keys, bad = set(), []
     for p in paths:
-        m = _name_re.match(p[len(prefix):]) if p.startswith(prefix) else None
+        m = _name_re.fullmatch(p[len(prefix):]) if p.startswith(prefix) else None
         if not m:
             bad.append(p)
             continue
@@ -294,7 +294,7 @@ def judge(ctx, r, dec, obs, prior, prefix, where):
     touched = obs['created'] + obs['changed'] + obs['removed']
     ok = True
     if sc == '5xx':
-        ctx.violation('C12:upload:5xx:%s' % cls, detail, '%s: %s %s with body class [%s] answered %s (%s); no input may produce a 5xx answer' % (
+        ctx.violation('C12:upload:5xx:%s' % sig5(cls), detail, '%s: %s %s with body class [%s] answered %s (%s); no input may produce a 5xx answer' % (
             where, r['method'], 'report' if r['kind'] == 'report' else 'garbage', cls, obs['status'], (obs.get('resp') or '').strip()[:80]))
         ok = False
     outside = [p for p in touched if not p.startswith(prefix)]
@@ -343,6 +343,11 @@ def judge(ctx, r, dec, obs, prior, prefix, where):
             where, cls, obs.get('status'), obs['created'], obs['changed'], obs['removed']))
         ok = False
     return set(prior) if ok else None
+
+
+def sig5(cls):
+    """5xx signatures: one class for every report that carries a null program"""
+    return 'programs-null-element' if 'programs-null-element' in cls else cls
 
 
 def body_preview(r):
@@ -395,8 +400,8 @@ class Gen:
     def abs_week(t):
         if t is None:
             return {'shape': 'absent', 'y': 0, 'm': 0, 'd': 0, 'path': []}
-        m = re.match(r'^([0-9]{4})-([0-9]{2})-([0-9]{2})$', t)  # NB: $ would also match before a final newline
-        if m and not t.endswith('\n'):
+        m = re.fullmatch(r'([0-9]{4})-([0-9]{2})-([0-9]{2})', t)
+        if m:
             return {'shape': 'iso', 'y': int(m.group(1)), 'm': int(m.group(2)), 'd': int(m.group(3)), 'path': ['n']}
         path = []
         if t != '':
@@ -439,7 +444,7 @@ class Gen:
         def numc(s):
             if s == '':
                 return 'empty'
-            if re.match(r'^[0-9]+$', s):
+            if re.fullmatch(r'[0-9]+', s):
                 return 'num' if s == '0' or s[0] != '0' else 'lead0'
             return 'bad'
 
@@ -450,9 +455,9 @@ class Gen:
             for i in s.split('.'):
                 if i == '':
                     c = 'empty'
-                elif not re.match(r'^[0-9A-Za-z-]+$', i):
+                elif not re.fullmatch(r'[0-9A-Za-z-]+', i):
                     c = 'bad'
-                elif numeric_rule and re.match(r'^[0-9]+$', i) and len(i) > 1 and i[0] == '0':
+                elif numeric_rule and re.fullmatch(r'[0-9]+', i) and len(i) > 1 and i[0] == '0':
                     c = 'lead0'
                 else:
                     c = 'ok'
@@ -721,6 +726,7 @@ def run(ctx):
         'one request at a time; prior bucket states are those reachable through the endpoint itself',
     ]
     gu.inject_files(ctx, 'godev/cmd/telemetrygodev', ['c12_verif_test.go'])
+    henv = gu.fast_tmp_env(ctx)
 
     # ---- 1. the specification: state machine, exhaustively ------------------
     r = ctx.tlc('ServerReq1', cfg='ServerReq1Thorough.cfg' if ctx.thorough() else 'ServerReq1.cfg', label='ServerReq1', workers=8, timeout=3000)
@@ -753,7 +759,7 @@ def run(ctx):
                 steps = [concretize(p, i) for i, p in enumerate(pre)] + [concretize(req, len(behs))]
                 behs.append({'id': len(behs), 'steps': steps})
                 meta.append((req, dec, pre, b0))
-        recs, rc, out = ctx.run_harness(PKG, TEST, inp={'config': cfgjson, 'behaviours': behs}, module_dir='godev', timeout=2400)
+        recs, rc, out = ctx.run_harness(PKG, TEST, inp={'config': cfgjson, 'behaviours': behs}, module_dir='godev', timeout=2400, env=henv)
         summ = gu.summary_of(recs, out, 'C12 vectors')
         if summ.get('aborted'):
             ctx.warn('harness aborted after a hang')
@@ -820,7 +826,7 @@ def run(ctx):
         steps = [concretize(p, i) for i, p in enumerate(pre)] + [concretize(q, i) for i, (q, _d) in enumerate(reqs)]
         behs.append({'id': len(behs), 'steps': steps})
         meta.append((pre, reqs, states))
-    recs, rc, out = ctx.run_harness(PKG, TEST, inp={'config': cfgjson, 'behaviours': behs}, module_dir='godev', timeout=2400)
+    recs, rc, out = ctx.run_harness(PKG, TEST, inp={'config': cfgjson, 'behaviours': behs}, module_dir='godev', timeout=2400, env=henv)
     summ = gu.summary_of(recs, out, 'C12 histories')
     prefix, limit = summ['upload_prefix'], summ['limit']
     obs = steps_of(recs)
@@ -870,7 +876,7 @@ def run(ctx):
             ab.append(a)
         behs.append({'id': h, 'steps': steps})
         absts.append(ab)
-    recs, rc, out = ctx.run_harness(PKG, TEST, inp={'config': cfgjson, 'behaviours': behs}, module_dir='godev', timeout=2400)
+    recs, rc, out = ctx.run_harness(PKG, TEST, inp={'config': cfgjson, 'behaviours': behs}, module_dir='godev', timeout=2400, env=henv)
     summ = gu.summary_of(recs, out, 'C12 random')
     prefix, limit = summ['upload_prefix'], summ['limit']
     obs = steps_of(recs)
@@ -893,40 +899,28 @@ def run(ctx):
         raise Infra('random generator is degenerate: only %d requests stored' % nstored)
     tcfg = open(os.path.join(os.path.dirname(os.path.dirname(os.path.abspath(__file__))), 'spec', 'ServerTrace.cfg')).read().replace(
         ' Limit <- MCLimit', ' Limit = %d' % limit)
-    # validate; on a rejected record report it, drop the rest of its history and go on
-    pos, guard_n, naccepted = 0, 0, 0
+    # TLC notes every record Server.tla does not explain (and re-syncs its bucket)
     bad_hist = set()
-    while pos < len(trace) and guard_n < 12:
-        guard_n += 1
-        part = trace[pos:]
-        r = ctx.tlc('ServerTrace', cfg_text=tcfg, files={'c12obs.ndjson': ndjson_text(part)}, workers=1, label='ServerTrace[%d]' % guard_n, count=False, timeout=2400)
-        if r.error == 'invariant':
-            st = r.trace[-1][1] if r.trace else {}
-            idx = st.get('l', 0)
-            if not (0 < idx <= len(part)):
-                raise Infra('ServerTrace: cannot locate the rejected record\n' + r.out[-2000:])
-            h, i, a, o, stp = origin[pos + idx - 1]
+    r = ctx.tlc('ServerTrace', cfg_text=tcfg, files={'c12obs.ndjson': ndjson_text(trace)}, workers=1, label='ServerTrace', count=False, timeout=2400)
+    if r.error == 'invariant' and r.error_name == 'Explained':
+        st = r.trace[-1][1] if r.trace else {}
+        bad = st.get('bad')
+        if not bad:
+            raise Infra('ServerTrace: cannot locate the rejected records\n' + r.out[-2000:])
+        for idx in bad:
+            h, i, a, o, stp = origin[idx - 1]
             bad_hist.add(h)
             cls = devclass(a)
-            sc = part[idx - 1]['status']
+            sc = trace[idx - 1]['status']
             what = '5xx' if sc == '5xx' else 'panic' if sc == 'crash' else 'observed'
-            ctx.violation('C12:upload:%s:%s' % (what, cls),
+            ctx.violation('C12:upload:%s:%s' % (what, sig5(cls) if what == '5xx' else cls),
                           {'abstract': {k: v for k, v in a.items() if not k.startswith('_')}, 'text': a.get('_text'), 'observed': {k: v for k, v in o.items() if k != 'listing'},
-                           'step': {k: (v if k != 'body64' else base64.b64decode(v)[:400].decode('latin-1')) for k, v in stp.items()}, 'model_bucket': st.get('bucket')},
+                           'step': {k: (v if k != 'body64' else base64.b64decode(v)[:400].decode('latin-1')) for k, v in stp.items()}},
                           'random history %d step %d: %s request (%s) answered %s created %s changed %s: not a behaviour of Server.tla' % (
                               h, i, a['method'], cls, o.get('status'), o.get('created'), o.get('changed')))
-            # skip to the next history
-            nxt = pos + idx
-            while nxt < len(trace) and trace[nxt]['op'] != 'reset':
-                nxt += 1
-            pos = nxt
-        elif not r.ok:
-            raise Infra('ServerTrace: %s %s\n%s' % (r.error, r.error_name, r.out[-3000:]))
-        else:
-            pos = len(trace)
-    if pos < len(trace):
-        ctx.warn('trace validation stopped after %d rejected records' % guard_n)
-    ctx.cov['traces_validated_against_impl'] += nh - len(bad_hist) if pos >= len(trace) else 0
+    elif not r.ok:
+        raise Infra('ServerTrace: %s %s\n%s' % (r.error, r.error_name, r.out[-3000:]))
+    ctx.cov['traces_validated_against_impl'] += nh - len(bad_hist)
     if origin[1:]:
         h, i, a, o, stp = [x for x in origin if x and x[3].get('status') == 200][0]
         ctx.sample({'kind': 'observation', 'text': a.get('_text'), 'method': a['method'], 'status': o.get('status'), 'created': o.get('created')})
